@@ -416,6 +416,33 @@ pub fn zbsdiff_structured(rng: &mut Rng, old: &[u8]) -> Case {
     Case { data, aux: old.to_vec(), flags: 0, origin: format!("structured zbsdiff: {n} control entries, diff {dl} extra {el} output_size {out} size_fields {size_fields:?}") }
 }
 
+/// ZBSDIFF1 patch that is consistent in every respect (exact diff/extra lengths, exact output
+/// size, in-range sizes) except for ONE hostile field of ONE control entry, so that the appliers
+/// get as far as that field (a fully random control block is usually refused at its first bad
+/// entry). Added after a seeded change (unchecked `old_pos += seek`) slipped past the generator above.
+pub fn zbsdiff_one_hostile_field(rng: &mut Rng, old: &[u8]) -> Case {
+    let ol = old.len() as i64;
+    let vals: [i64; 18] = [i64::MAX, i64::MIN + 1, i64::MAX - 1, 1 << 62, -(1 << 62), 1 << 32, -(1 << 32), 1 << 31, -(1 << 31), (1 << 31) - 1, ol, ol + 1, -ol, -ol - 1, -1, 1_000_000_000, 10_000_000, 10_000_001];
+    let n = rng.urange(1, 4);
+    let mut control: Vec<(i64, i64, i64)> = (0..n).map(|_| (rng.range(0, 9) as i64, rng.range(0, 5) as i64, rng.range(0, 8) as i64 - 4)).collect();
+    // make sure the old-file position is non-zero when the hostile entry is reached
+    control[0].0 = control[0].0.max(1);
+    let victim = rng.usize_below(n);
+    let field = rng.below(6);
+    let dsum: i64 = control.iter().map(|c| c.0).sum();
+    let esum: i64 = control.iter().map(|c| c.1).sum();
+    let v = *rng.pick(&vals);
+    match field {
+        0..=3 => control[victim].2 = v, // seek: the field no size validation covers
+        4 => control[victim].0 = v,
+        _ => control[victim].1 = v,
+    }
+    let diff = rng.bytes(dsum as usize);
+    let extra = rng.bytes(esum as usize);
+    let data = crate::seeds::zbsdiff_build(&control, &diff, &extra, dsum + esum, None);
+    Case { data, aux: old.to_vec(), flags: 0, origin: format!("zbsdiff consistent patch with one hostile field: entry {victim} field {} = {v}", ["seek", "seek", "seek", "seek", "diff_size", "extra_size"][field as usize]) }
+}
+
 /// Random job -> case. `seeds` = the family of the target, `pool` = seeds of all families.
 pub fn random_case(rng: &mut Rng, seeds: &[Seed], pool: &[&Seed], text: bool) -> Case {
     let roll = rng.below(100);
